@@ -157,11 +157,12 @@ Proof. unfold offs_ge. intros Hle Hf. eapply Forall_impl; [|exact Hf]. simpl. in
 
 Lemma offs_ge_sub F a b : sub_trunc a b -> offs_ge F a -> offs_ge F b.
 Proof.
-  unfold offs_ge. induction 1; intros Hf; auto; inversion Hf; subst; auto.
+  unfold offs_ge. induction 1; intros Hf; auto; inversion Hf; subst; constructor; auto.
+  cbn [pw_off] in *. lia.
 Qed.
 
 Lemma sub_trunc_refl a : sub_trunc a a.
-Proof. induction a; constructor; auto. Qed.
+Proof. induction a as [|[o d|n] a IH]; constructor; auto. lia. Qed.
 
 (* ---- crash images ---- *)
 Lemma prefix_torn_ge F ws k t : offs_ge F ws -> offs_ge F (prefix_torn ws k t).
@@ -337,8 +338,8 @@ Proof.
     unfold f_offset. cbn [bufoff buf durable pending]. rewrite len_nil.
     split; [lia|]. split; [reflexivity|]. split; [intros; lia|]. split; [auto|].
     split; [|split; [intros; lia|split; [auto|split; [auto|]]]].
-    + intros _. unfold lview. rewrite Eos. cbn [bufoff buf]. rewrite wr_nil.
-      fold (lview f). unfold lview at 2.
+    + intros _. unfold lview at 1. rewrite Eos. cbn [bufoff buf]. rewrite wr_nil.
+      unfold lview.
       destruct keep.
       * symmetry. apply take_wr_below; lia.
       * rewrite take_take by lia. symmetry. apply take_wr_below; lia.
@@ -350,7 +351,7 @@ Qed.
 Lemma stream_app o a b : stream_from o (a ++ b) <-> stream_from o a /\ stream_from (o + len (concat_w a)) b.
 Proof.
   revert o; induction a as [|[o' d|n] a IH]; intros o; cbn [app stream_from].
-  - unfold concat_w; cbn. rewrite len_nil, N.add_0_r. tauto.
+  - unfold concat_w; cbn. change (len []) with 0. rewrite N.add_0_r. tauto.
   - rewrite IH. unfold concat_w; cbn [map pw_data concat]. rewrite len_app.
     replace (o + len d + len (concat (map pw_data a))) with (o + (len d + len (concat (map pw_data a)))) by lia.
     tauto.
@@ -380,9 +381,8 @@ Qed.
 
 Lemma sub_trunc_stream o a b : stream_from o a -> sub_trunc a b -> b = a.
 Proof.
-  intros Hs Hb. revert o Hs. induction Hb; intros o Hs; auto.
-  - destruct w as [o' d|n]; cbn [stream_from] in Hs; [|contradiction].
-    destruct Hs as [_ Hs]. f_equal. eapply IHHb; eauto.
+  intros Hs Hb. revert o Hs. induction Hb; intros o' Hs; auto.
+  - cbn [stream_from] in Hs. destruct Hs as [_ Hs]. f_equal. eapply IHHb; eauto.
   - cbn [stream_from] in Hs. contradiction.
 Qed.
 
@@ -427,32 +427,53 @@ Proof.
   exists j. split; [exact Hj|]. rewrite (apply_stream _ o) by auto. rewrite Ec. reflexivity.
 Qed.
 
-(* ... and when a truncation at o precedes the stream (the rewind that started it): the image either
-   keeps the old tail or not *)
-Lemma crash_image_trunc_stream f o ws img :
-  pending f = PT o :: ws -> stream_from o ws -> o <= len (durable f) -> crash_image f img ->
-  exists j, j <= len (concat_w ws) /\
-    (img = wr (durable f) o (take j (concat_w ws)) \/ img = take o (durable f) ++ take j (concat_w ws)).
+(* ... and when a truncation at o may precede the stream (the rewind that started it) *)
+Definition pstream (o : N) (ws : list pw) : Prop :=
+  stream_from o ws \/ exists r, ws = PT o :: r /\ stream_from o r.
+
+Lemma concat_w_PT n r : concat_w (PT n :: r) = concat_w r.
+Proof. reflexivity. Qed.
+
+Lemma pstream_apply o ws c : pstream o ws -> o <= len c ->
+  exists m, o <= m /\ apply_writes c ws = wr (take m c) o (concat_w ws).
 Proof.
-  intros Ep Hs Ho (k & t & ws' & Hsub & ->). rewrite Ep in Hsub.
-  destruct k as [|k].
-  - (* nothing, or nothing but a skipped/absent truncation *)
-    unfold prefix_torn in Hsub. cbn in Hsub. inversion Hsub; subst.
-    exists 0. split; [lia|]. left. cbn. rewrite take_0, wr_nil. reflexivity.
-  - assert (Ept: prefix_torn (PT o :: ws) (S k) t = PT o :: prefix_torn ws k t) by reflexivity.
-    rewrite Ept in Hsub.
-    destruct (prefix_torn_stream o ws k t Hs) as (j & Hj & Hs' & Ec).
-    exists j. split; [exact Hj|].
-    inversion Hsub; subst.
-    + (* truncation applied *)
-      rewrite (sub_trunc_stream _ _ _ Hs' H2). right.
-      cbn [apply_writes fold_left apply1]. fold (apply_writes (take o (durable f)) (prefix_torn ws k t)).
-      rewrite (apply_stream _ o) by (auto; rewrite len_take; lia). rewrite Ec.
-      unfold wr. rewrite take_take by lia. rewrite drop_ge by (rewrite len_take; lia).
-      rewrite app_nil_r. reflexivity.
-    + (* truncation missing *)
-      rewrite (sub_trunc_stream _ _ _ Hs' H1). left.
-      rewrite (apply_stream _ o) by auto. rewrite Ec. reflexivity.
+  intros [Hs|(r & -> & Hs)] Ho.
+  - exists (len c). split; [exact Ho|]. rewrite take_all. apply apply_stream; auto.
+  - exists o. split; [lia|]. cbn [apply_writes fold_left apply1]. fold (apply_writes (take o c) r).
+    rewrite concat_w_PT. apply apply_stream; auto. rewrite len_take. lia.
+Qed.
+
+Lemma crash_image_pstream f o img :
+  pstream o (pending f) -> o <= len (durable f) -> crash_image f img ->
+  exists m j, o <= m /\ j <= len (concat_w (pending f)) /\
+    img = wr (take m (durable f)) o (take j (concat_w (pending f))).
+Proof.
+  intros [Hs|(r & Ep & Hs)] Ho Hc.
+  - destruct (crash_image_stream f o img Hs Ho Hc) as (j & Hj & ->).
+    exists (len (durable f)), j. rewrite take_all. auto.
+  - destruct Hc as (k & t & ws' & Hsub & ->). rewrite Ep in *. rewrite concat_w_PT.
+    destruct k as [|k].
+    + unfold prefix_torn in Hsub. cbn in Hsub. inversion Hsub; subst.
+      exists (len (durable f)), 0. split; [exact Ho|]. split; [lia|].
+      rewrite take_all, take_0, wr_nil. reflexivity.
+    + assert (Ept: prefix_torn (PT o :: r) (S k) t = PT o :: prefix_torn r k t) by reflexivity.
+      rewrite Ept in Hsub.
+      destruct (prefix_torn_stream o r k t Hs) as (j & Hj & Hs' & Ec).
+      inversion Hsub as [| |n m a b Hm Hx]; subst.
+      rewrite (sub_trunc_stream _ _ _ Hs' Hx).
+      exists m, j. split; [exact Hm|]. split; [exact Hj|].
+      cbn [apply_writes fold_left apply1]. fold (apply_writes (take m (durable f)) (prefix_torn r k t)).
+      rewrite (apply_stream _ o) by (auto; rewrite len_take; lia). rewrite Ec. reflexivity.
+Qed.
+
+Lemma pstream_app_l o a b : pstream o (a ++ b) -> pstream o a.
+Proof.
+  intros [Hs|(r & E & Hs)].
+  - left. apply stream_app in Hs as [Hs _]. exact Hs.
+  - destruct a as [|w a].
+    + left. exact Logic.I.
+    + cbn [app] in E. injection E as -> <-. right. exists a. split; [reflexivity|].
+      apply stream_app in Hs as [Hs _]. exact Hs.
 Qed.
 
 Lemma concat_w_tail o (b : bytes) : concat_w (tailw o b) = b.
@@ -468,3 +489,28 @@ Qed.
 
 Lemma stream_tail o o' (b : bytes) : (b <> [] -> o' = o) -> stream_from o (tailw o' b).
 Proof. destruct b; simpl; auto. intros Hh. split; auto. apply Hh. discriminate. Qed.
+
+Lemma fstream_stream_flushn o f n : stream_from o (fstream f) -> stream_from o (fstream (f_flushn f n)).
+Proof.
+  unfold fstream, f_flushn. intros Hs. destruct (take n (buf f)) as [|x d] eqn:E; [exact Hs|].
+  cbn [pending buf bufoff].
+  assert (Hb: buf f = (x :: d) ++ drop n (buf f)) by (rewrite <- E; symmetry; apply take_drop_id).
+  apply stream_app in Hs as [Hs1 Hs2]. rewrite Hb in Hs2. simpl in Hs2. destruct Hs2 as [Ho _].
+  rewrite <- app_assoc. apply stream_app. split; auto. simpl. split; auto.
+  apply stream_tail. intros _. lia.
+Qed.
+
+Lemma pstream_flushn o f n : pstream o (fstream f) -> pstream o (fstream (f_flushn f n)).
+Proof.
+  intros [Hs|(r & E & Hs)]; [left; apply fstream_stream_flushn; exact Hs|].
+  right. unfold fstream in E.
+  destruct (pending f) as [|w p'] eqn:Ep.
+  - exfalso. cbn [app] in E. destruct (buf f); cbn in E; discriminate.
+  - cbn [app] in E. injection E as -> <-.
+    set (f' := mkFile (durable f) p' (bufoff f) (buf f)).
+    assert (Hs': stream_from o (fstream f')) by exact Hs.
+    pose proof (fstream_stream_flushn o f' n Hs') as Hs2.
+    exists (fstream (f_flushn f' n)). split; [|exact Hs2].
+    unfold fstream, f_flushn. change (buf f') with (buf f). change (bufoff f') with (bufoff f).
+    destruct (take n (buf f)); cbn [pending buf bufoff durable f']; rewrite Ep; reflexivity.
+Qed.
